@@ -30,6 +30,7 @@ type sInt struct{ v *big.Int }
 type sBool struct{ b bool }
 type sFloat struct{ f float64 }
 type sNil struct{}
+type sWord struct{ name string } // an arbitrary machine word (table limb), only selected or masked, never computed with
 type sOpaque struct{ why string }
 
 // symbolic integer: bits (LSB first; "" = 0, "1" = 1, otherwise an atom that is 0 or 1) and/or a rational-linear form
@@ -83,10 +84,14 @@ type sState struct {
 	zeros map[string]bool
 	sign  map[string]uint8 // digit atom -> subset of {neg 1, zero 2, pos 4}
 	nulls []pform          // forms known to denote the point at infinity on this path
+	ones  map[string]bool  // bit atoms known to be 1 on this path
+	ghost pform            // weighted sum of the digits stored into the observed output array (sum val * 2^index)
+	ghostNext int          // smallest index at which the next non-zero digit may be stored (spacing rule)
+	bnd   map[string][2]*big.Rat // bounds learned from branches on a linear form (keyed by its non-constant part)
 }
 
 func (s *sState) clone() *sState {
-	n := &sState{nulls: append([]pform(nil), s.nulls...), vals: make(map[ssa.Value]sVal, len(s.vals)), heap: make(map[int]interface{}, len(s.heap)), zeros: make(map[string]bool, len(s.zeros)), sign: make(map[string]uint8, len(s.sign))}
+	n := &sState{nulls: append([]pform(nil), s.nulls...), ones: make(map[string]bool, len(s.ones)), ghost: s.ghost, ghostNext: s.ghostNext, vals: make(map[ssa.Value]sVal, len(s.vals)), heap: make(map[int]interface{}, len(s.heap)), zeros: make(map[string]bool, len(s.zeros)), sign: make(map[string]uint8, len(s.sign))}
 	for k, v := range s.vals {
 		n.vals[k] = v
 	}
@@ -103,7 +108,169 @@ func (s *sState) clone() *sState {
 	for k, v := range s.sign {
 		n.sign[k] = v
 	}
+	for k := range s.ones {
+		n.ones[k] = true
+	}
+	if s.bnd != nil {
+		n.bnd = make(map[string][2]*big.Rat, len(s.bnd))
+		for k, v := range s.bnd {
+			n.bnd[k] = v
+		}
+	}
 	return n
+}
+
+// linKey: canonical text of the non-constant part of a linear form, and its constant
+func linKey(x *sSym) (string, *big.Rat) {
+	var ks []string
+	for a := range x.lin {
+		if a != "" {
+			ks = append(ks, a)
+		}
+	}
+	sort.Strings(ks)
+	var sb strings.Builder
+	for _, a := range ks {
+		sb.WriteString(a)
+		sb.WriteString("*")
+		sb.WriteString(x.lin[a].RatString())
+		sb.WriteString(";")
+	}
+	c := x.lin[""]
+	if c == nil {
+		c = new(big.Rat)
+	}
+	return sb.String(), c
+}
+
+// vanishes: the form is identically zero once the bit values known on this path are substituted
+func (s *sState) vanishes(d pform) bool {
+	consts := map[string]*big.Int{}
+	for k, c := range d {
+		i := strings.Index(k, "|")
+		atom, base := k[:i], k[i+1:]
+		switch {
+		case atom == "":
+		case s.zeros[atom]:
+			continue
+		case s.ones[atom]:
+		default:
+			return false
+		}
+		if consts[base] == nil {
+			consts[base] = new(big.Int)
+		}
+		consts[base].Add(consts[base], c)
+	}
+	for _, c := range consts {
+		if c.Sign() != 0 {
+			return false
+		}
+	}
+	return true
+}
+
+// reconcile finds a form that both states can use: f1 is valid under the facts of s1, f2 under those of s2. The common form
+// is f1 + X where X = sum over the atoms a of (f2-f1) whose value v(a) is known in s1 of (f2-f1)_a * (a - v(a)) (so X is
+// zero in s1); it is accepted when X - (f2-f1) is zero under the facts of s2.
+func reconcile(s1 *sState, f1 pform, s2 *sState, f2 pform) (pform, bool) {
+	d := pfAdd(f2, pfScale(f1, big.NewInt(-1)))
+	if len(d) == 0 {
+		return f1, true
+	}
+	x := pform{}
+	for k, c := range d {
+		i := strings.Index(k, "|")
+		atom, base := k[:i], k[i+1:]
+		if atom == "" {
+			continue
+		}
+		switch {
+		case s1.zeros[atom]:
+			x[k] = c
+		case s1.ones[atom]:
+			x[k] = c
+			ck := pfKey("", base)
+			prev := x[ck]
+			if prev == nil {
+				prev = new(big.Int)
+			}
+			x[ck] = new(big.Int).Sub(prev, c)
+		}
+	}
+	for k, c := range x {
+		if c.Sign() == 0 {
+			delete(x, k)
+		}
+	}
+	r := pfAdd(x, pfScale(d, big.NewInt(-1)))
+	if !s2.vanishes(r) {
+		return nil, false
+	}
+	return pfAdd(f1, x), true
+}
+
+// rangeOf a symbolic integer whose atoms are bits: interval under the bit values known on this path
+func (s *sState) rangeOf(x *sSym) (*big.Rat, *big.Rat, bool) {
+	lo, hi := new(big.Rat), new(big.Rat)
+	for a, c := range x.lin {
+		switch {
+		case a == "":
+			lo.Add(lo, c)
+			hi.Add(hi, c)
+		case isDigitAtom(a) || strings.HasPrefix(a, "len("):
+			return nil, nil, false
+		case s.zeros[a]:
+		case s.ones[a]:
+			lo.Add(lo, c)
+			hi.Add(hi, c)
+		case c.Sign() > 0:
+			hi.Add(hi, c)
+		default:
+			lo.Add(lo, c)
+		}
+	}
+	if s.bnd != nil {
+		key, c := linKey(x)
+		if b, ok := s.bnd[key]; ok && key != "" {
+			if b[0] != nil {
+				if v := new(big.Rat).Add(b[0], c); v.Cmp(lo) > 0 {
+					lo = v
+				}
+			}
+			if b[1] != nil {
+				if v := new(big.Rat).Add(b[1], c); v.Cmp(hi) < 0 {
+					hi = v
+				}
+			}
+		}
+	}
+	return lo, hi, true
+}
+
+// learnBound records (non-constant part of x) >= lo resp. <= hi
+func (s *sState) learnBound(x *sSym, lo, hi *big.Rat) {
+	key, c := linKey(x)
+	if key == "" {
+		return
+	}
+	if s.bnd == nil {
+		s.bnd = map[string][2]*big.Rat{}
+	}
+	b := s.bnd[key]
+	if lo != nil {
+		v := new(big.Rat).Sub(lo, c)
+		if b[0] == nil || v.Cmp(b[0]) > 0 {
+			b[0] = v
+		}
+	}
+	if hi != nil {
+		v := new(big.Rat).Sub(hi, c)
+		if b[1] == nil || v.Cmp(b[1]) < 0 {
+			b[1] = v
+		}
+	}
+	s.bnd[key] = b
 }
 
 type tabSem struct {
@@ -129,6 +296,15 @@ type sched struct {
 	stopped []*sState
 	pdom    map[*ssa.Function]map[*ssa.BasicBlock]*ssa.BasicBlock
 	assume  map[string]bool
+	live    map[*ssa.Function]map[*ssa.BasicBlock]map[ssa.Value]bool
+	frames  []*ssa.Function // functions being interpreted (innermost last)
+	ghostArr int            // heap id of the observed output array (0: none)
+	ghostW   int            // window width for the digit rules
+	digitProblems []string
+	digitStores   int
+	dbgN          int
+	globals       map[string]sVal // driver-supplied values of package-level variables (pointer to their cell)
+	dbgLabel      string
 }
 
 func (e *sched) fail(format string, a ...interface{}) {
@@ -484,6 +660,9 @@ func (e *sched) get(st *sState, v ssa.Value) sVal {
 		if _, ok := e.tables[name]; ok {
 			return sTab{name: name, ptr: true}
 		}
+		if g, ok := e.globals[name]; ok {
+			return g
+		}
 		return sOpaque{"global " + name}
 	case *ssa.Function:
 		return sOpaque{"func"}
@@ -541,6 +720,19 @@ func (e *sched) binop(st *sState, x *ssa.BinOp) sVal {
 				return sBool{ab.b != bb.b}
 			}
 		}
+	}
+	// machine words are only masked with all-ones / zero and OR-ed with zero
+	if wa, ok := a.(sWord); ok {
+		if bi2, ok := b.(sInt); ok {
+			return wordOp(x.Op, wa, bi2.v, x.Type())
+		}
+		return sOpaque{"operation on two table words"}
+	}
+	if wb, ok := b.(sWord); ok {
+		if ai2, ok := a.(sInt); ok && (x.Op == token.AND || x.Op == token.OR || x.Op == token.XOR) {
+			return wordOp(x.Op, wb, ai2.v, x.Type())
+		}
+		return sOpaque{"operation on two table words"}
 	}
 	// nil comparisons of pointers
 	if _, ok := b.(sNil); ok {
@@ -694,6 +886,24 @@ func (e *sched) binop(st *sState, x *ssa.BinOp) sVal {
 		}
 	}
 	return sOpaque{"unsupported symbolic operation " + x.Op.String()}
+}
+
+func wordOp(op token.Token, w sWord, c *big.Int, t types.Type) sVal {
+	_, max := typeRange(t)
+	switch op {
+	case token.AND:
+		if c.Sign() == 0 {
+			return sInt{big.NewInt(0)}
+		}
+		if c.Cmp(max) == 0 {
+			return w
+		}
+	case token.OR, token.XOR:
+		if c.Sign() == 0 {
+			return w
+		}
+	}
+	return sOpaque{"table word combined with a partial mask"}
 }
 
 // evenForm: a form a*d + c over digit atoms (odd or zero...) - only used after d != 0 is known; digits are odd by the
